@@ -42,6 +42,9 @@ pub enum Shape {
     /// tail call nested in `lets` let forms each binding `width` temporaries; `mutual`: the loop
     /// alternates between two functions of the same arity
     Shuffle { arity: usize, lets: usize, width: usize, mutual: bool },
+    /// an earlier branch of the conditional evaluates to a lambda expression (directly, through let /
+    /// begin, as a cond clause, in a never-taken branch), a later branch is the tail call; variants 0-5
+    ClosureValuedBranch(u8),
     /// non-tail recursion of the given depth: must end Ok or Err
     Deep,
 }
@@ -158,6 +161,17 @@ pub fn render(c: &LoopCase) -> (String, String) {
             let init: Vec<String> = (0..k).map(|j| format!("{}", j + 1)).collect();
             (d, format!("(lp 0 {})", init.join(" ")))
         }
+        Shape::ClosureValuedBranch(v) => match v % 6 {
+            0 => (format!("(define (lp i acc) {} (if (= i {}) (lambda () acc) (lp (+ i 1) (+ acc i))))", p, n), "((lp 0 0))".to_string()),
+            1 => (format!("(define (lp i acc) {} (cond ((= i {}) (lambda () acc)) ((< i 0) (lambda () -1)) (else (lp (+ i 1) (+ acc i)))))", p, n), "((lp 0 0))".to_string()),
+            2 => (format!("(define (lp i acc) {} (if (= i {}) (let ((r acc)) (lambda () r)) (lp (+ i 1) (+ acc i))))", p, n), "((lp 0 0))".to_string()),
+            3 => (format!("(define (lp i acc) {} (if (= i {}) (begin (+ i 1) (lambda () acc)) (lp (+ i 1) (+ acc i))))", p, n), "((lp 0 0))".to_string()),
+            4 => (
+                format!("(define (m0 i acc) {} (if (= i {}) (lambda () acc) (m1 (+ i 1) (+ acc i))))\n(define (m1 i acc) (if (= i {}) (lambda () acc) (m0 (+ i 1) (+ acc i))))", p, n, n),
+                "((m0 0 0))".to_string(),
+            ),
+            _ => (format!("(define (lp i acc) {} (if (< i 0) (lambda (x) x) (if (= i {}) acc (lp (+ i 1) (+ acc i)))))", p, n), "(lp 0 0)".to_string()),
+        },
         Shape::Deep => (format!("(define (deep k) (if (= k 0) 0 (+ 1 (deep (- k 1)))))"), format!("(deep {})", n)),
     };
     (format!("{}{}", head, defs), call)
@@ -272,6 +286,12 @@ fn shapes() -> Vec<Shape> {
         Shape::InBegin,
         Shape::OutOfNamedLet,
         Shape::FromHandler,
+        Shape::ClosureValuedBranch(0),
+        Shape::ClosureValuedBranch(1),
+        Shape::ClosureValuedBranch(2),
+        Shape::ClosureValuedBranch(3),
+        Shape::ClosureValuedBranch(4),
+        Shape::ClosureValuedBranch(5),
     ]
 }
 
